@@ -29,6 +29,7 @@ Definition inventory_ok : bool :=
   list_eqb' pair_eqb GenDeterminism.unordered_loops spec_loops &&
   list_eqb' row_eqb GenDeterminism.hash_container_mentions spec_hash &&
   match GenDeterminism.clock_or_random_mentions with [] => true | _ => false end &&
+  GenDeterminism.toml_tables_sorted &&      (* no preserve_order feature: toml::Table is a BTreeMap *)
   GenLayerShared.execd_copy_shape_ok.     (* distinct names = distinct destinations: hypothesis of copy_loop_order_irrelevant *)
 
 Definition agrees (c : case) : bool := inventory_ok && k_equal c.
